@@ -69,4 +69,26 @@ def assertConcrete : Iface → Nat → Option Nat
   | .nil, _ => none
   | .val t _ v, target => if t = target then some v else none
 
+/-- dynamic content of an interface value for assertions to interface types: nil, or a dynamic type with its method set -/
+inductive Dyn | nil | val (typ : Nat) (methods : List Nat)
+  deriving DecidableEq, Repr
+
+/-- the dynamic type with method set `ms` implements the interface with methods `I` -/
+def implements (ms I : List Nat) : Bool := I.all fun m => ms.contains m
+
+/-- `x.(I)` for an interface type I: "asserts that x is not nil and that the dynamic type of x implements the interface
+    I"; "If the type assertion holds, the value of the expression is the value stored in x"; otherwise "a run-time panic
+    occurs" (a *runtime.TypeAssertionError). The STATIC type of x does not occur in the rule. `none` = panic. -/
+def assertIface (x : Dyn) (I : List Nat) : Option Dyn :=
+  match x with
+  | .nil => none
+  | .val t ms => if implements ms I then some (.val t ms) else none
+
+/-- `v, ok := x.(I)`: "the value of ok is true if the assertion holds. Otherwise it is false and the value of v is the
+    zero value for type T. No run-time panic occurs" -/
+def assertIfaceOk (x : Dyn) (I : List Nat) : Dyn × Bool :=
+  match assertIface x I with
+  | some v => (v, true)
+  | none => (.nil, false)
+
 end GV.Spec.Checks
